@@ -260,7 +260,40 @@ def execute_hist(case):
                         'worker of %s created with a different environment: '
                         'extra %r missing %r changed %r' % (
                             r["owner"], extra[:5], missing[:5], changed[:5])))
-                args = r["args"]
+                args, shell_pos = _worker_argv(r["args"], r.get("shell"))
+                if r.get("pid") is not None:
+                    # the whole vector: cmd + args after substitution
+                    want_argv = ['worker', '--name', r["owner"]]
+                    if wc.get("tagged"):
+                        want_argv += ['--tag', (wc.get("env") or {}).get(
+                            "VERIF_A")]
+                    want_argv += ['--wid']
+                    got_argv = list(args or [])
+                    wid_ok = len(got_argv) == len(want_argv) + 1 and \
+                        str(got_argv[-1]).isdigit()
+                    if (not wid_ok or got_argv[:-1] != want_argv) and \
+                            (not wc.get("tagged") or
+                             got_argv[:3] != want_argv[:3] or
+                             len(got_argv) != len(want_argv) + 1):
+                        # (a stale tag value has its own clause below)
+                        viols.append(Violation(
+                            'C13:argv:hist:%s' % (
+                                'shell' if r.get("shell") else 'exec'),
+                            'worker of %s runs %r (created with args=%r '
+                            'shell=%r), configured %r + wid' % (
+                                r["owner"], got_argv, r["args"],
+                                r.get("shell"), want_argv)))
+                    if r.get("shell"):
+                        classes.add('shell-watcher')
+                        sa = wc.get("shell_args")
+                        want_pos = shlex.split(sa) if isinstance(sa, str) \
+                            else list(sa or [])
+                        if shell_pos != want_pos:
+                            viols.append(Violation(
+                                'C13:argv:shell_args',
+                                'worker of %s: the shell gets positional '
+                                'parameters %r, shell_args is %r (args=%r)'
+                                % (r["owner"], shell_pos, sa, r["args"])))
                 if wc.get("tagged") and r.get("pid") is not None:
                     # the command line refers to a variable of the watcher's
                     # environment: substituted with the value configured now
@@ -353,9 +386,11 @@ def execute_hist(case):
                 for pid in w.eff_live(name):
                     rec = k.procs[pid].rec
                     tag = None
-                    for i_, a_ in enumerate(rec["args"] or []):
-                        if a_ == '--tag' and i_ + 1 < len(rec["args"]):
-                            tag = rec["args"][i_ + 1]
+                    argv_ = _worker_argv(rec["args"], rec.get("shell"))[0] \
+                        or []
+                    for i_, a_ in enumerate(argv_):
+                        if a_ == '--tag' and i_ + 1 < len(argv_):
+                            tag = argv_[i_ + 1]
                     if tag != want_tag or (rec["env"] or {}).get(
                             "VERIF_A") != want_tag:
                         viols.append(Violation(
@@ -389,7 +424,26 @@ def execute_hist(case):
     return out, nontrivial, sorted(classes)
 
 
+def _worker_argv(args, shell):
+    """-> (argument vector the worker program gets, $0 $1 ... of the shell).
+    With shell=True subprocess runs `sh -c args[0] args[1:]`: the program is
+    given the words of the command string, the rest names the shell's own
+    positional parameters."""
+    if not shell:
+        return (list(args) if isinstance(args, (list, tuple)) else args), None
+    try:
+        if isinstance(args, str):
+            return shlex.split(args), []
+        return (shlex.split(args[0]) if args else []), list(args[1:])
+    except ValueError:
+        return None, None
+
+
 def _wid_of(args):
+    if isinstance(args, str) or (
+            isinstance(args, (list, tuple)) and len(args) >= 1 and
+            isinstance(args[0], str) and ' --wid ' in args[0]):
+        args = _worker_argv(args, True)[0]
     if isinstance(args, (list, tuple)):
         for i, a in enumerate(args):
             if a == '--wid' and i + 1 < len(args):
@@ -503,7 +557,9 @@ def _hist_strategy():
         "env": st.dictionaries(st.sampled_from(['VERIF_A', 'VERIF_B', 'HOME']),
                                st.sampled_from(['1', 'two', '/x y']),
                                max_size=2),
-        "copy_env": st.booleans()})
+        "copy_env": st.booleans(),
+        "shell": st.sampled_from([True, True, False]),
+        "shell_args": st.sampled_from([["S0", "S1"], "S0 S1", ["a b"]])})
     base = lifecycle_cases(
         requests=('incr', 'decr', 'set', 'restart', 'reload', 'stop',
                   'start'), extra_watcher_opts=extra, max_ops=24,
